@@ -216,35 +216,28 @@ Definition find_opt (a0 : list N) : option opt := find (fun o => cmpf a0 (o_name
 Definition addev (s : pst) (line : N) (rest : list N) (e : list event) : pst :=
   {| p_rest := rest; p_line := line; p_trace := e ++ p_trace s |}.
 
-(* one call of _parse_inline from the top of its while loop: optcount is the loop-carried local (newsectionid is reset for
-   every line) *)
-Fixpoint pinl (fuel : nat) (s : pst) (sectionid : N) (parents : list cbd) (optcount : N) : res pres :=
-  match fuel with
-  | O => Fuel
-  | S f =>
-    match p_rest s with
-    | [] =>                                                            (* fgets() == NULL *)
-        match parents with
-        | p :: _ => Ok (PErr (p_line s) (EUnclosed (argv0 p)) s)
-        | [] => Ok (PDone optcount s)
-        end
-    | _ =>
-      let (chunk, rest) := take_line maxl (p_rest s) in
-      let line := p_line s + 1 in
-      let buf := trim chunk in
-      if (hd0 buf =? 0) || (hd0 buf =? 35) then pinl f (addev s line rest []) sectionid parents optcount else
+(* what one line does: the body of the while loop after qstrtrim, up to "Section handling" *)
+Inductive lact :=
+| LSkip                                                  (* blank line or comment: continue *)
+| LFail (e : aerr) (evs : list event)                    (* EXITLOOP *)
+| LOpen (evs : list event) (me : cbd) (nsid : N)         (* section open: recursive call with section id nsid and parent me *)
+| LClose (evs : list event)                              (* section close: doneloop *)
+| LNext (evs : list event).                              (* option: next line *)
+
+Definition line_step (buf : list N) (sectionid : N) (parents : list cbd) : lact :=
+      if (hd0 buf =? 0) || (hd0 buf =? 35) then LSkip else
       let level := match parents with p :: _ => (c_level p + 1) mod 256 | [] => 0 end in
       let sections := match parents with p :: _ => N.lor (c_sections p) sectionid | [] => sectionid end in
       match classify buf with
-      | None => Ok (PErr line (EBracket buf) (addev s line rest []))
+      | None => LFail (EBracket buf) []
       | Some (otype, sp) =>
         match aconf_tokenize sp with
-        | TokErr => Ok (PErr line EQuote (addev s line rest []))
+        | TokErr => LFail EQuote []
         | TokOk argv =>
           let a0 := hd [] argv in
           let isclose := otype =? QAC_OTYPE_SECTIONCLOSE in
           if isclose && (match parents with [] => true | p :: _ => negb (cmpf a0 (argv0 p)) end)
-          then Ok (PErr line (EBadClose a0) (addev s line rest [])) else
+          then LFail (EBadClose a0) [] else
           (* find matching option; the result is an error or (events, argv as passed on, newsectionid) *)
           let found : aerr * list event + list event * list (list N) * N :=
             match find_opt a0 with
@@ -280,25 +273,47 @@ Fixpoint pinl (fuel : nat) (s : pst) (sectionid : N) (parents : list cbd) (optco
                 else inr ([], argv, 0)
             end in
           match found with
-          | inl (e, evs) => Ok (PErr line e (addev s line rest evs))
+          | inl (e, evs) => LFail e evs
           | inr (evs, argv', nsid) =>
-              let s1 := addev s line rest evs in
               if otype =? QAC_OTYPE_SECTIONOPEN then
-                let me := {| c_otype := otype; c_section := sectionid; c_sections := sections; c_level := level; c_argv := argv' |} in
-                bind (pinl f s1 nsid (me :: parents) 0) (fun r =>
-                  match r with
-                  | PDone c2 s2 => pinl f s2 sectionid parents (optcount + c2 + 1)
-                  | PErr l e s2 => Ok (PErr l e s2)
-                  end)
-              else if isclose then Ok (PDone (optcount + 1) s1)
-              else pinl f s1 sectionid parents (optcount + 1)
+                LOpen evs {| c_otype := otype; c_section := sectionid; c_sections := sections; c_level := level; c_argv := argv' |} nsid
+              else if isclose then LClose evs
+              else LNext evs
           end
         end
+      end.
+
+(* one call of _parse_inline from the top of its while loop: optcount is the loop-carried local (newsectionid is reset for
+   every line) *)
+Fixpoint pinl (fuel : nat) (s : pst) (sectionid : N) (parents : list cbd) (optcount : N) : res pres :=
+  match fuel with
+  | O => Fuel
+  | S f =>
+    match p_rest s with
+    | [] =>                                                            (* fgets() == NULL *)
+        match parents with
+        | p :: _ => Ok (PErr (p_line s) (EUnclosed (argv0 p)) s)
+        | [] => Ok (PDone optcount s)
+        end
+    | _ =>
+      let (chunk, rest) := take_line maxl (p_rest s) in
+      let line := p_line s + 1 in
+      match line_step (trim chunk) sectionid parents with
+      | LSkip => pinl f (addev s line rest []) sectionid parents optcount
+      | LFail e evs => Ok (PErr line e (addev s line rest evs))
+      | LOpen evs me nsid =>
+          bind (pinl f (addev s line rest evs) nsid (me :: parents) 0) (fun r =>
+            match r with
+            | PDone c2 s2 => pinl f s2 sectionid parents (optcount + c2 + 1)
+            | PErr l e s2 => Ok (PErr l e s2)
+            end)
+      | LClose evs => Ok (PDone (optcount + 1) (addev s line rest evs))
+      | LNext evs => pinl f (addev s line rest evs) sectionid parents (optcount + 1)
       end
     end
   end.
 
-(* qaconf->aconf_parse(): the whole file *)
+(* qaconf->parse(): the whole file *)
 Definition aconf_parse (file : list N) : res pres :=
   pinl (S (S (length file))) {| p_rest := file; p_line := 0; p_trace := [] |} QAC_SECTION_ROOT [] 0.
 End Aconf.
